@@ -12,25 +12,6 @@ open LyModel LyModel.Tree
 
 def dfltFlags : Flags := { dflt := true }
 
-/-- metadata `lyd_val_diff_add` gives the create of a user-ordered node: the preceding instance (key predicate / value) or
-the position -/
-def createAnchor (S : Schema) (sibs : List DNode) (idx : Nat) (n : DNode) : Option (String × Bytes) :=
-  if !S.isUserOrd n.sid then none
-  else
-    let before := sibs.take idx
-    if S.isDupInst n.sid then
-      let pos := posOf before n.sid
-      some ("position", if pos > 1 then bs (toString (pos - 1)) else [])
-    else
-      let prev := match before.getLast? with
-        | some p => if p.sid == n.sid then some p else none
-        | none => none
-      if S.isKind n.sid .list then
-        some ("key", match prev with
-          | some p => (keysOf S p.kids).flatMap fun k => [91] ++ bs (S.name k.sid) ++ [61] ++ quoted k.val ++ [93]
-          | none => [])
-      else some ("value", match prev with | some p => p.val | none => [])
-
 /-- index at which `insertNode` put `n` (first position where the lists differ, else the end) -/
 def insertedAt (old new : List DNode) : Nat :=
   match old, new with
@@ -41,7 +22,7 @@ def insertedAt (old new : List DNode) : Nat :=
 def addImplicit (S : Schema) (cx : Cx) (sibs : List DNode) (n : DNode) : List DNode × Out :=
   let sibs' := insertNode S sibs n
   let idx := insertedAt sibs sibs'
-  (sibs', Out.ofEvs [{ op := .create, anc := cx.anc, node := n, anchor := createAnchor S sibs' idx n }])
+  (sibs', Out.ofEvs [{ op := .create, anc := cx.anc, node := n, anchor := userordAnchor S sibs' idx n }])
 
 /-- the non-choice schema nodes of a level -/
 def implNodes (S : Schema) (o : VOpts) (cx : Cx) : List STree → List DNode → List DNode × Out
@@ -70,53 +51,74 @@ def firstData (sibs : List DNode) (ds : List Nat) : Option DNode :=
   ds.findSome? fun sid => sibs.find? (·.sid == sid)
 
 mutual
-/-- `lyd_new_implicit` for the schema children `ks` of the parent / of a case -/
-def implL (X : SchemaX) (o : VOpts) (cx : Cx) : List STree → List DNode → List DNode × Out
-  | ks, sibs =>
-    let r1 := implChoices X o cx ks sibs
-    let r2 := implNodes X.base o cx ks r1.1
-    (r2.1, r1.2 ++ r2.2)
 /-- the choices among `ks`, in order -/
 def implChoices (X : SchemaX) (o : VOpts) (cx : Cx) : List STree → List DNode → List DNode × Out
   | [], sibs => (sibs, {})
-  | .mk s i cases :: rest, sibs =>
-    let r1 : List DNode × Out :=
-      if i.kind != .choice || (o.noState && !i.config) then (sibs, {})
-      else
-        match firstData sibs (dataSidsL cases) with
-        | none =>
-          match i.dfltCase with
-          | some nm => implCaseNamed X o cx nm cases sibs          -- create default case data
-          | none => (sibs, {})
-        | some node =>
-          -- create any default data in the existing case: the DIRECT schema parent of the node that was found, which is
-          -- an inner case when that node sits in a nested choice
+  | k :: rest, sibs =>
+    let r1 := implChoice X o cx k sibs
+    let r2 := implChoices X o cx rest r1.1
+    (r2.1, r1.2 ++ r2.2)
+/-- one schema child of the level: a choice gets the default case, or the rest of the case that has data -/
+def implChoice (X : SchemaX) (o : VOpts) (cx : Cx) : STree → List DNode → List DNode × Out
+  | .mk _ i cases, sibs =>
+    if i.kind != .choice || (o.noState && !i.config) then (sibs, {})
+    else
+      match firstData sibs (dataSidsL cases) with
+      | none =>
+        match i.dfltCase with
+        | some nm => implCaseNamed X o cx nm cases sibs          -- create default case data
+        | none => (sibs, {})
+      | some node =>
+        -- create any default data in the existing case
+        if X.q.implicitInnerCase then
+          -- defective code (F65): the DIRECT schema parent of the node that was found, which is an inner case when that
+          -- node sits in a nested choice
           match sparent X.base node.sid with
           | some target => implInto X o cx target cases sibs
           | none => (sibs, {})
-    let r2 := implChoices X o cx rest r1.1
+        else
+          -- the case of THIS choice that holds the node
+          implCaseHolding X o cx node.sid cases sibs
+/-- `lyd_new_implicit(…, sparent = case, …)`: its choices first, then its other nodes -/
+def implCase (X : SchemaX) (o : VOpts) (cx : Cx) : STree → List DNode → List DNode × Out
+  | .mk _ _ ks, sibs =>
+    let r1 := implChoices X o cx ks sibs
+    let r2 := implNodes X.base o cx ks r1.1
     (r2.1, r1.2 ++ r2.2)
-/-- the case called `nm` among `cases` -/
+/-- the case called `nm` -/
 def implCaseNamed (X : SchemaX) (o : VOpts) (cx : Cx) (nm : String) : List STree → List DNode → List DNode × Out
   | [], sibs => (sibs, {})
-  | .mk _ i ks :: rest, sibs => if i.name == nm then implL X o cx ks sibs else implCaseNamed X o cx nm rest sibs
-/-- the case with schema id `target` among `cases` or inside the choices nested in them -/
+  | c :: rest, sibs => if c.info.name == nm then implCase X o cx c sibs else implCaseNamed X o cx nm rest sibs
+/-- the case one of whose data nodes (nested choices included) is `sid` -/
+def implCaseHolding (X : SchemaX) (o : VOpts) (cx : Cx) (sid : Nat) : List STree → List DNode → List DNode × Out
+  | [], sibs => (sibs, {})
+  | c :: rest, sibs =>
+    if c.dataSids.contains sid then implCase X o cx c sibs else implCaseHolding X o cx sid rest sibs
+/-- the case with schema id `target`, looked for among `cases` and inside the choices nested in them -/
 def implInto (X : SchemaX) (o : VOpts) (cx : Cx) (target : Nat) : List STree → List DNode → List DNode × Out
   | [], sibs => (sibs, {})
-  | .mk s _ ks :: rest, sibs =>
-    if s == target then implL X o cx ks sibs
-    else
-      let r1 := implIntoKids X o cx target ks sibs
-      let r2 := implInto X o cx target rest r1.1
-      (r2.1, r1.2 ++ r2.2)
+  | c :: rest, sibs =>
+    let r1 := if c.sid == target then implCase X o cx c sibs else implIntoCase X o cx target c sibs
+    let r2 := implInto X o cx target rest r1.1
+    (r2.1, r1.2 ++ r2.2)
+def implIntoCase (X : SchemaX) (o : VOpts) (cx : Cx) (target : Nat) : STree → List DNode → List DNode × Out
+  | .mk _ _ ks, sibs => implIntoKids X o cx target ks sibs
 /-- the choices among the children of a case, searched for the target case -/
 def implIntoKids (X : SchemaX) (o : VOpts) (cx : Cx) (target : Nat) : List STree → List DNode → List DNode × Out
   | [], sibs => (sibs, {})
-  | .mk _ i cases :: rest, sibs =>
-    let r1 := if i.kind == .choice then implInto X o cx target cases sibs else (sibs, {})
+  | k :: rest, sibs =>
+    let r1 := implIntoChoice X o cx target k sibs
     let r2 := implIntoKids X o cx target rest r1.1
     (r2.1, r1.2 ++ r2.2)
+def implIntoChoice (X : SchemaX) (o : VOpts) (cx : Cx) (target : Nat) : STree → List DNode → List DNode × Out
+  | .mk _ i cases, sibs => if i.kind == .choice then implInto X o cx target cases sibs else (sibs, {})
 end
+
+/-- `lyd_new_implicit` for the schema children `ks` of the parent / of a case: choices first, then the other nodes -/
+def implL (X : SchemaX) (o : VOpts) (cx : Cx) (ks : List STree) (sibs : List DNode) : List DNode × Out :=
+  let r1 := implChoices X o cx ks sibs
+  let r2 := implNodes X.base o cx ks r1.1
+  (r2.1, r1.2 ++ r2.2)
 
 /-- `lyd_is_default(node)`: a leaf equal to its default; a leaf-list instance equal to ANY ONE of the defaults -/
 def isDefault (S : Schema) (n : DNode) : Bool :=
